@@ -73,8 +73,8 @@ func MarshalValue(self Value, isInner bool) (out interface{}, skipNull bool) {
 		for _, value := range *self.Values {
 			marshaled, skipNull := MarshalValue(*value, true)
 
-			// skip builtin functions
-			if marshaled != nil && !skipNull {
+			// skip builtin functions, keep `null` / `none` elements (they are list elements like any other)
+			if !skipNull {
 				output = append(output, marshaled)
 			}
 		}
